@@ -23,9 +23,9 @@ func init() {
 			"Not decided: the round-trip identity for every free-list shape; internals of encoding/json.",
 		TrustedBase: []string{"go/types, go/cfg", "semantics of encoding/binary ByteOrder methods and encoding/json on fixed arrays"},
 		Rules: []Rule{
-			{ID: "C17/R1", Run: c17r1, Min: 3},
+			{ID: "C17/R1", Run: c17r1, Min: 1},
 			{ID: "C17/R2", Run: c17r2, Min: 1},
-			{ID: "C17/R3", Run: c17r3, Min: 8},
+			{ID: "C17/R3", Run: c17r3, Min: 1},
 		},
 	})
 }
